@@ -13,6 +13,10 @@ SHAPES = {   # (mu0, nf0), (mu1, nf1), (mu2, nf2)
     "up-across-high": ((2.5, 4), (6.5, 5), (10.0, 5)),
     "down-across": ((10.0, 5), (6.5, 5), (3.0, 4)),
     "updown": ((2.0, 4), (3.4, 4), (2.6, 4)),
+    # points whose nf is not the default one of their scale: nf = 4 kept above the bottom matching scale; the
+    # second leg then runs DOWN within nf = 4 to the matching scale before it crosses
+    "forced-split": ((2.5, 4), (6.5, 4), (10.0, 5)),
+    "forced-init": ((7.0, 4), (6.0, 4), (10.0, 5)),
 }
 
 
